@@ -12,7 +12,7 @@ Init == l \in 1..Len(Recs)
 Next == UNCHANGED l
 
 Rng(f) == { f[i] : i \in DOMAIN f }
-Cfg(r) == [enabled |-> Rng(r.cfg.enabled), disableCSRF |-> r.cfg.disableCSRF, disableHeaderCheck |-> r.cfg.disableHeaderCheck, creds |-> r.cfg.creds]
+Cfg(r) == [enabled |-> Rng(r.cfg.enabled), disableCSRF |-> r.cfg.disableCSRF, disableHeaderCheck |-> r.cfg.disableHeaderCheck, creds |-> r.cfg.creds, public |-> r.cfg.public]
 \* what the response shows: the status and, for a 403, which check spoke
 Observed(r) ==
   IF r.status = 401 THEN "401"
